@@ -230,6 +230,28 @@ PROPS = {
         exhaustive=dict(quick=False, thorough=False),
         assumptions=["fingerprints are span-insensitive prints of the raw visitor output (before hygiene)"],
     ),
+    "C15": dict(
+        mc=[dict(module="MC_C15")], judge="Judge_C15", want=["js", "scope"],
+        rule="comment placement (file head, before the second top-level statement, before a later one, inside a function, "
+             "trailing, inside an expression) x style (block, line, JSDoc, multi-line JSDoc) x annotation text (@jsx name, "
+             "extra spaces, name followed by words, no name, @jsxImportSource, @jsxRuntime, @jsxFrag, unrelated, wrong case, "
+             "@jsx not at the start) x pragma option present/absent, on a module with an element, a fragment and a component "
+             "in a function; every vnode's factory is observed at runtime; non-trivial = an annotation or the option names a factory",
+        exhaustive=dict(quick=True, thorough=True),
+        assumptions=["`@jsx name more words` and `@jsx` not at the start of the comment: named factory or default accepted",
+                     "two different @jsx annotations in one file are outside the domain"],
+    ),
+    "C14": dict(
+        mc=[dict(module="MC_C14")], group_by=lambda cid: cid.split("#")[0], judge="Judge_C14", want=["det", "scope"], node=False,
+        rule="14 modules classified by the features they use (none; on; nativeOn; spread; repeated attribute; single identifier "
+             "child; single call child; two children; tag matching a pattern; other hyphenated tag; no JSX; Vue defineComponent; "
+             "local defineComponent; everything) x configurations (quick: default +- up to two options; thorough: all 2^5 x "
+             "pattern list x pragma) x JSON spellings (all keys explicit; only non-default keys, {} for the default; unknown extra "
+             "keys; invalid pattern); outputs are compared byte-for-byte by hash within each module",
+        exhaustive=dict(quick=False, thorough=True),
+        assumptions=["optimize and pragma concern every JSX element and are never 'irrelevant'",
+                     "the option JSON reaches the visitor through serde_json::from_str::<Options> like in plugin/src/lib.rs"],
+    ),
     "C02": dict(
         mc=[dict(module="MC_C02")], judge="Judge_C02", want=["js"],
         rule="TLC enumerates every JSX-text string over the symbol alphabet up to the length bound in every "
